@@ -251,6 +251,13 @@ func c08Accumulator(p *chk.Prog, r *chk.Report) {
 				ng.GPat(false, "A.Type == T", chk.H("T", constStr(nf, "InternalIP"))),
 				ng.GPat(true, "F != D && ipfamily.ForAddress(IP) != F", chk.H("F", isParamIdx(nf, 1)), chk.H("IP", same), chk.H("D", isObjNamed(nf, "internal/ipfamily.DualStack")))))
 			ok = !skip && ng.Dominated(s, ng.GPat(true, "A.Type == T", chk.H("T", constStr(nf, "InternalIP"))))
+			// every address of every node is looked at: neither loop is left early
+			ok = ok && !loopHasBreak(ng, rs1)
+			if outer, isR := nf.LoopOf(rs1).(*ast.RangeStmt); isR {
+				ok = ok && !loopHasBreak(ng, outer) && !loopSkipsWithout(ng, outer, func(n ast.Node) bool { return n == ast.Node(rs1.X) }, chk.NoGuard)
+			} else {
+				ok = false
+			}
 		}
 		x.Check("NodeIPsForFamily:all-internal-ips-of-family", nf.Pos(), ok, "", "NodeIPsForFamily can omit an internal IP of the requested family")
 	}
